@@ -305,7 +305,7 @@ def simple(pid, level, sub, configs_quick, configs_thorough=None):
 
 # ------------------------------------------------------------------------------------------------
 # C03 / C20: the probe program built in every configuration of the lattice
-STD = ["chacha_std", "blake_std", "jh_std", "ppv_std"]
+STD = ["chacha_std", "blake_std", "jh_std", "ppv_std", "std"]  # `std` = vprobe's own (the dispatch macros test the expanding crate's feature)
 PROBE_CONFIGS = {
     # name: (vprobe features, extra rustflags, forced backends to run)
     "probe-std": (STD, "", [0, 1, 2, 3, 4, 5]),
@@ -338,6 +338,37 @@ def run_probe(binp, force=0, long=False):
     if p.returncode != 0:
         return dict(crashed=True, code=p.returncode, stderr=p.stderr[-500:])
     return json.loads(p.stdout.strip().splitlines()[-1])
+
+
+MACHINES = {  # substrings of core::any::type_name of the Machine the dispatch macros hand out
+    "sse2": "NoS3, ppv_lite86::x86_64::NoS4",
+    "ssse3": "YesS3, ppv_lite86::x86_64::NoS4",
+    "sse41": "YesS3, ppv_lite86::x86_64::YesS4",
+    "avx": "YesS3, ppv_lite86::x86_64::YesS4",
+    "avx2": "Avx2Machine",
+    "generic": "GenericMachine",
+}
+
+
+def expected_machine(features, rustflags, forced):
+    if any(f in features for f in ("ppv_no_simd", "chacha_no_simd")):
+        return "generic"
+    if forced:
+        return BACKEND_NAMES[forced]
+    if "std" in features:
+        return "avx2"  # CPUID dispatch on this host
+    for name in ("avx2", "avx", "sse4.1", "ssse3"):
+        if "+" + name in rustflags:
+            return {"sse4.1": "sse41"}.get(name, name)
+    return "sse2"
+
+
+def machine_violation(prefix, point, r, features, rustflags, forced, viol):
+    """the configuration must really run the implementation it is meant to select"""
+    want = expected_machine(features, rustflags, forced)
+    got = r.get("machine", "")
+    if got and MACHINES[want] not in got:
+        viol.append(dict(sig="%s:%s:selects-wrong-implementation" % (prefix, point), detail="this configuration is meant to run the %s implementation but the dispatch macros hand out %s" % (want, got), replay=dict(point=point, features=features), count=1))
 
 
 def probe_violations(prefix, point, r, ref_fp, viol):
@@ -379,6 +410,8 @@ def plan_c03(tier):
             point = n if len(PROBE_CONFIGS[n][2]) == 1 else "%s/forced-%s" % (n, BACKEND_NAMES[f])
             r = run_probe(binp, f, long=(tier == "thorough"))
             fp = probe_violations("c03", point, r, ref_fp, viol)
+            if not r.get("crashed"):
+                machine_violation("c03", point, r, PROBE_CONFIGS[n][0], PROBE_CONFIGS[n][1], f, viol)
             if ref_fp is None and fp is not None:
                 ref_fp = fp
             if not r.get("crashed"):
@@ -386,9 +419,9 @@ def plan_c03(tier):
                 cases = r["cases"]
                 if f and r["taken"][f] == 0:
                     raise Machinery("hook H1: forced backend %d was never dispatched" % f)
-            points.append(dict(point=point, cases=r.get("cases"), fingerprint=r.get("fingerprint"), mismatches=r.get("n_mismatches"), panics=r.get("n_panics"), forced_dispatch_hits=(r.get("taken") or [None] * 6)[f] if f else None))
+            points.append(dict(point=point, machine=r.get("machine"), cases=r.get("cases"), fingerprint=r.get("fingerprint"), mismatches=r.get("n_mismatches"), panics=r.get("n_panics"), forced_dispatch_hits=(r.get("taken") or [None] * 6)[f] if f else None))
     res = dict(config="lattice", evaluations=total, distinct_nontrivial=cases, exhaustive=True, violations=viol, wall_s=time.time() - t0,
-               rule="configuration lattice enumerated completely (13 points): std dispatch with CPUID and with each of SSE2/SSSE3/SSE4.1/AVX/AVX2 forced through hook H1; no_std compile-time dispatch built with -Ctarget-feature for each of the five arms; no_simd with and without std. In every point the same probe runs all 7 ChaCha types on {k0,k1} x {n0,n1} x position alphabet x length alphabet (buffered / wide / narrow segments, counter carry), BLAKE-224/256/384/512 and JH-224/256/384/512 on every length 0..=3B+2 (thorough 6B+2) and every one-hot one-block message; each output is compared with vref inside the probe and the 13 fingerprints must be equal. distinct_nontrivial = distinct (algorithm, input) cases per point.",
+               rule="configuration lattice enumerated completely (13 points): std dispatch with CPUID and with each of SSE2/SSSE3/SSE4.1/AVX/AVX2 forced through hook H1; no_std compile-time dispatch built with -Ctarget-feature for each of the five arms; no_simd with and without std. In every point the same probe runs all 7 ChaCha types on {k0,k1} x {n0,n1} x position alphabet x length alphabet (buffered / wide / narrow segments, counter carry), BLAKE-224/256/384/512 and JH-224/256/384/512 on every length 0..=3B+2 (thorough 6B+2) and every one-hot one-block message; each output is compared with vref inside the probe, the 13 fingerprints must be equal, and the Machine type the dispatch macros hand out in each point must be the one the point is meant to run. distinct_nontrivial = distinct (algorithm, input) cases per point.",
                samples=points[:3] + points[-2:], extra=dict(points=points, reference_fingerprint=ref_fp),
                assumptions=["'SSE2 backend' means the SSE2 instantiation executed on this AVX2 host (identical instructions; target_feature only adds permission)", "the no_std arms are selected by cfg!(target_feature), trusted to follow -Ctarget-feature"])
     return finish("C03", tier, "exploration", [res], t0)
@@ -456,7 +489,7 @@ def plan_c20(tier):
             viol.append(dict(sig="c20:build:%s:%s" % (name, "+".join(sub) if sub else "(none)"), detail="cargo check -p %s --no-default-features --features '%s' fails: %s" % (name, ",".join(sub), err[:300]), replay=dict(package=name, features=sub), count=1 + sum(1 for f in failing if f > set(sub))))
     log("[c20] %d feature-lattice builds %.1fs" % (nbuilds, time.time() - t0))
     # ---- features must only select implementations: probe fingerprints ----
-    pf = ["chacha_std", "chacha_no_simd", "chacha_simd", "blake_std", "jh_std", "ppv_std", "ppv_no_simd", "ppv_simd"]
+    pf = ["chacha_std", "chacha_no_simd", "chacha_simd", "blake_std", "jh_std", "ppv_std", "ppv_no_simd", "ppv_simd"]  # vprobe's own `std` only in the STD set
     if tier == "thorough":
         sets = subsets(pf)
     else:
@@ -489,12 +522,14 @@ def plan_c20(tier):
             viol.append(dict(sig="c20:probe:%s:does-not-build" % point, detail=err[-500:], replay=dict(features=fs), count=1))
             continue
         fp = probe_violations("c20:probe", point, r, ref_fp, viol)
+        if not r.get("crashed"):
+            machine_violation("c20:probe", point, r, fs, "", 0, viol)
         if ref_fp is None:
             ref_fp = fp
         if not r.get("crashed"):
             total += r["cases"]
             cases = r["cases"]
-        pts.append(dict(features=fs, fingerprint=r.get("fingerprint"), cases=r.get("cases")))
+        pts.append(dict(features=fs, machine=r.get("machine"), fingerprint=r.get("fingerprint"), cases=r.get("cases")))
     # threefish no_unroll selects an implementation too: C09's domain on that build
     r9 = dict(evaluations=0)
     try:
@@ -507,7 +542,7 @@ def plan_c20(tier):
     except Machinery as e:
         viol.append(secondary_build_failure("C20", "nounroll", str(e)))
     res = dict(config="lattice", evaluations=nbuilds + total + r9["evaluations"], distinct_nontrivial=nbuilds + len(pts), exhaustive=True, violations=viol, wall_s=time.time() - t0,
-               rule="(1) for each of the 9 workspace packages the declared features (cargo metadata, incl. the implicit features of optional dependencies, 'default' excluded) are read and EVERY subset is built with cargo check --lib --no-default-features --features <subset> (minimal failing sets are reported); (2) the probe of C03 is built with %s of the implementation-selecting features {chacha std/no_simd/simd, blake std, jh std, ppv-lite86 std/no_simd/simd} and its fingerprint must equal the all-std fingerprint; (3) Threefish with no_unroll runs C09's and C10's domains against the model. distinct_nontrivial = lattice points built + probe points run." % ("every subset (256)" if tier == "thorough" else "8 chosen subsets"),
+               rule="(1) for each of the 9 workspace packages the declared features (cargo metadata, incl. the implicit features of optional dependencies, 'default' excluded) are read and EVERY subset is built with cargo check --lib --no-default-features --features <subset> (minimal failing sets are reported); (2) the probe of C03 is built with %s of the implementation-selecting features {chacha std/no_simd/simd, blake std, jh std, ppv-lite86 std/no_simd/simd} and its fingerprint must equal the all-std fingerprint, and the dispatched Machine must be the portable one exactly when a no_simd feature is on; (3) Threefish with no_unroll runs C09's and C10's domains against the model. distinct_nontrivial = lattice points built + probe points run." % ("every subset (256)" if tier == "thorough" else "8 chosen subsets"),
                samples=lattice[:2] + lattice[-2:] + pts[:2], extra=dict(lattice_builds=nbuilds, lattice=lattice, probe_points=pts, reference_fingerprint=ref_fp, c09_no_unroll_evaluations=r9["evaluations"]),
                assumptions=["stable toolchain and x86-64 target of this sandbox only", "supersets of a failing minimal feature set are attributed to it"])
     return finish("C20", tier, "exploration", [res], t0)
